@@ -129,6 +129,11 @@ macro_rules! oklab_std {
                 let via: Oklab<T> = Oklab::from_color_unclamped(xyz);
                 r.goal("direct_ab", direct.a.close(T::k(0.0), 1e-3) & direct.b.close(T::k(0.0), 1e-3));
                 r.goal("via_xyz_ab", via.a.close(T::k(0.0), 1e-3) & via.b.close(T::k(0.0), 1e-3));
+                // an achromatic Oklab colour converts back to equal RGB components, for every L in [0,1]
+                let back: Rgb<Linear<Sp>, T> = Rgb::from_color_unclamped(Oklab::<T>::new(g, T::k(0.0), T::k(0.0)));
+                // direct sRGB matrices: 1e-6; the other standards go through XYZ with palette's re-derived M1 (3.4e-4 at white): 1e-3
+                let tol = if $key == "srgb" { 1e-6 } else { 1e-3 };
+                r.goal("oklab_grey_back_to_equal_rgb", back.red.close(back.green, tol) & back.green.close(back.blue, tol) & back.red.close(g * g * g, tol));
                 let w = Rgb::<Linear<Sp>, T>::new(T::k(1.0), T::k(1.0), T::k(1.0));
                 let ow: Oklab<T> = Oklab::from_color_unclamped(w);
                 r.goal("white", ow.l.close(T::k(1.0), 1e-3) & ow.a.close(T::k(0.0), 1e-3) & ow.b.close(T::k(0.0), 1e-3));
@@ -206,7 +211,32 @@ fn legacy(l: &mut Vec<Obl>) {
         });
 }
 
+/// CIE 15:2004 chromaticity coordinates (2 degree observer) of the standard illuminants
+const CIE_XY: [(&str, f64, f64); 11] = [
+    ("A", 0.44757, 0.40745), ("B", 0.34842, 0.35161), ("C", 0.31006, 0.31616), ("D50", 0.34567, 0.35850), ("D55", 0.33242, 0.34743),
+    ("D65", 0.31271, 0.32902), ("D75", 0.29902, 0.31485), ("E", 1.0 / 3.0, 1.0 / 3.0), ("F2", 0.37208, 0.37529), ("F7", 0.31292, 0.32933), ("F11", 0.38052, 0.37713),
+];
+
+fn white_points(l: &mut Vec<Obl>) {
+    obl!(l; "c14_white_point_constants_vs_cie", "C14", Tier::Quick,
+        "every white point constant (A, B, C, D50, D55, D65, D75, E, F2, F7, F11) has Y = 1 and X, Z within 2e-3 of the XYZ derived from its CIE 15 chromaticity coordinates",
+        ["white_point::{A,B,C,D50,D55,D65,D75,E,F2,F7,F11}::get_xyz"], [];
+        |v| {
+            let mut r = Res::<B>::new();
+            macro_rules! wpc { ($W:ty, $i:expr) => {{
+                let w = <$W as WhitePoint<f64>>::get_xyz();
+                let (n, x, y) = CIE_XY[$i];
+                let ok = w.y == 1.0 && (w.x - x / y).abs() <= 2e-3 && (w.z - (1.0 - x - y) / y).abs() <= 2e-3;
+                r.goal(n, B::k(ok));
+            }}; }
+            wpc!(wp::A, 0); wpc!(wp::B, 1); wpc!(wp::C, 2); wpc!(wp::D50, 3); wpc!(wp::D55, 4); wpc!(wp::D65, 5);
+            wpc!(wp::D75, 6); wpc!(wp::E, 7); wpc!(wp::F2, 8); wpc!(wp::F7, 9); wpc!(wp::F11, 10);
+            r
+        });
+}
+
 pub fn register(l: &mut Vec<Obl>) {
+    white_points(l);
     oklab_std!(l, "srgb", Srgb);
     oklab_std!(l, "adobe", AdobeRgb);
     oklab_std!(l, "rec2020", Rec2020);
